@@ -26,7 +26,7 @@ CHECKS = {
         pkg="c04",
         level="fault_enumeration",
         technique="enumerated configuration matrix with a recording observer on the carrier + property-based testing (rapid) of scripted misbehaving peers at each handshake step; marker-on-the-wire oracle",
-        rule=("four generated experiments. (1) real client x real server with a recording observer on the carrier (TCP/UDP relay, "
+        rule=("five generated experiments. (1) real client x real server with a recording observer on the carrier (TCP/UDP relay, "
               "pipe tap): the matrix (carrier tcp/tcp+tls/http/https/stdio/stdio+tls/udp with and without shared secret/dns) x server certificate x require-"
               "security x insecure flag is enumerated; a 32-byte high-entropy marker inside generated padding is echoed through; "
               "oracle: never 'reported secure and marker on the wire', never marker on the wire / data carried when security is "
@@ -37,7 +37,9 @@ CHECKS = {
               "close; oracle: with require-security Connect succeeds only after a genuine TLS handshake and the server never "
               "reads the marker in clear; StartTLS offered => TLS or no session. (3) TLS endpoints (tcp+tls, https, stdio+tls) x "
               "scripted plaintext clients (perfect plaintext handshake, websocket upgrade, truncations, random bytes): no "
-              "success status in clear, no target connection. non-trivial = the ends could disagree (StartTLS offered, security "
+              "success status in clear, no target connection. (4) a +tls/https upstream object connected 1-3 times (earlier "
+              "attempts against an honest TLS server or a dead port, enumerated), the last time against a hostile peer that speaks "
+              "a perfect plaintext handshake: it must be greeted with a TLS ClientHello and no session may result. non-trivial = the ends could disagree (StartTLS offered, security "
               "required, or a misbehaving step)"),
         assumptions=["the server's own secure flag is only observable in experiment 1b (no hook in the full server path)",
                      "DNS payloads are encoded, so the literal-marker detector says nothing there; flags and model still apply"],
